@@ -905,7 +905,7 @@ def run_for_property(prop, src, tier):
                 f, _n = check_emit_code(mir, src, ob)
                 fns += f
         if miragg.has_sites(prop):
-            agg = miragg.run(prop, mir, src, ob)
+            agg = miragg.run(prop, mir, src, ob, tier)
             fns += agg.fns
     except Untranslatable as e:
         return {"status": "inconclusive", "reason": "not translatable: " + str(e), "functions": fns,
